@@ -45,7 +45,11 @@ pub enum LeafKind {
     ArgStrParse,
     ArgStrGuard,
     ArgU32Guard,
+    /// u32 argument whose value comes from its environment variable
+    ArgU32Env,
 }
+
+pub const C06_ENV: &str = "BPAF_VERIF_C06_NUM";
 
 pub const LEAVES: &[LeafKind] = &[
     LeafKind::ArgU32,
@@ -54,6 +58,7 @@ pub const LEAVES: &[LeafKind] = &[
     LeafKind::ArgStrParse,
     LeafKind::ArgStrGuard,
     LeafKind::ArgU32Guard,
+    LeafKind::ArgU32Env,
 ];
 
 #[derive(Clone, Copy, Debug, PartialEq, Eq, Hash)]
@@ -129,6 +134,7 @@ pub fn build_shape(s: &Shape) -> Built {
     let is_pos = s.leaf == LeafKind::PosU32;
     let (leaf, guard_msg): (Node, Option<&'static str>) = match s.leaf {
         LeafKind::ArgU32 => (arg("n", &["num"], Ty::U32), None),
+        LeafKind::ArgU32Env => (with_env(arg("n", &["num"], Ty::U32), C06_ENV), None),
         LeafKind::ArgI64 => (arg("n", &["num"], Ty::I64), None),
         LeafKind::PosU32 => (pos("NUM", Ty::U32), None),
         LeafKind::ArgStrParse => (
@@ -181,7 +187,12 @@ pub fn build_shape(s: &Shape) -> Built {
     // occurrences of the leaf
     let mut occ_items: Vec<Vec<u8>> = Vec::new();
     let mut value_rel: Vec<usize> = Vec::new();
+    let from_env = s.leaf == LeafKind::ArgU32Env;
     for k in 0..s.occurrences {
+        if from_env {
+            // nothing on the line: the value comes from the variable
+            break;
+        }
         if is_pos {
             value_rel.push(occ_items.len());
             occ_items.push(format!("{}", 100 + k).into_bytes());
@@ -289,8 +300,25 @@ fn conversion_errors(leaf: LeafKind, invalid: &[u8]) -> Vec<String> {
     v
 }
 
+fn set_c06_env(v: Option<&[u8]>) {
+    use std::os::unix::ffi::OsStringExt;
+    match v {
+        Some(v) => std::env::set_var(C06_ENV, std::ffi::OsString::from_vec(v.to_vec())),
+        None => std::env::remove_var(C06_ENV),
+    }
+}
+
 pub fn check_shape(s: &Shape, ctx: &mut Ctx) -> Verdict {
+    let r = check_shape_inner(s, ctx);
+    set_c06_env(None);
+    r
+}
+
+fn check_shape_inner(s: &Shape, ctx: &mut Ctx) -> Verdict {
     let b = build_shape(s);
+    let from_env = s.leaf == LeafKind::ArgU32Env;
+    // the worker is single threaded and owns its environment
+    set_c06_env(if from_env { Some(b"123") } else { None });
     let parser = match guarded(|| {
         let p = build_level(&b.level);
         p.check_invariants(false);
@@ -319,11 +347,16 @@ pub fn check_shape(s: &Shape, ctx: &mut Ctx) -> Verdict {
     ctx.class(&format!("depth:{}", s.stack.len()));
 
     // (i) present but invalid
-    if matches!(clean, Outcome::Value(_)) && !b.value_ix.is_empty() {
+    if matches!(clean, Outcome::Value(_)) && (!b.value_ix.is_empty() || from_env) {
         ctx.class("accepted-sentence");
-        let which = b.value_ix[s.corrupt_ix % b.value_ix.len()];
         let mut a = b.argv.clone();
-        a[which] = b.invalid.clone();
+        if from_env {
+            set_c06_env(Some(&b.invalid));
+            ctx.class("invalid-value-in-environment");
+        } else {
+            let which = b.value_ix[s.corrupt_ix % b.value_ix.len()];
+            a[which] = b.invalid.clone();
+        }
         // the invalid text must really be invalid for this leaf
         let really_invalid = match s.leaf {
             LeafKind::ArgStrGuard | LeafKind::ArgU32Guard => true,
@@ -394,7 +427,8 @@ pub fn check_shape(s: &Shape, ctx: &mut Ctx) -> Verdict {
         }
     }
 
-    // (ii) absent: remove every item of the leaf
+    // (ii) absent: remove every item of the leaf (and unset its variable)
+    set_c06_env(None);
     let mut a: Vec<Vec<u8>> = Vec::new();
     for (i, x) in b.argv.iter().enumerate() {
         if !b.leaf_items.contains(&i) {
